@@ -218,11 +218,12 @@ func (c *connection) send(conn net.Conn, connDone chan bool) {
 		}
 		if !c.isLive(conn) {
 			// this connection has been closed or replaced meanwhile: hand the request to the sender of
-			// the live connection (dialling one if there is none) instead of writing to a dead one
-			c.client.sendFailQueue <- m
+			// the live connection instead of writing to a dead one.  Make sure there is a live connection
+			// first: its sender drains the one-slot failure queue, which may still hold an earlier request
 			if err := c.ReConnect(); err != nil {
 				TLOG.Errorf("send request reconnect error: %v", err)
 			}
+			c.client.sendFailQueue <- m
 			return
 		}
 		if vhook.Enabled {
